@@ -1,6 +1,7 @@
 #!/usr/bin/env python3
 """Apply every confirmed seeded change of /verif/seeded/<Cxx-n>/ to /repo (working tree only), run the check of its
 property, record the outcome in seeded/<id>/result.json, and undo the change.  Never commits anything in /repo."""
+R = __import__('os').environ.get('VERIF_REPO', '/repo')   # the tree the patches are applied to (a snapshot under `vp run --with-repo`)
 import glob, json, os, re, subprocess, sys
 V = os.path.dirname(os.path.dirname(os.path.abspath(__file__)))
 rows = []
@@ -15,16 +16,16 @@ for d in sorted(glob.glob(os.path.join(V, 'seeded', 'C*-*'))):
         continue
     prop = sid.split('-')[0]
     patch = os.path.join(d, 'patch.diff')
-    st = subprocess.run(['git', '-C', '/repo', 'status', '--porcelain', '--untracked-files=no'], capture_output=True, text=True).stdout.strip()
+    st = subprocess.run(['git', '-C', R, 'status', '--porcelain', '--untracked-files=no'], capture_output=True, text=True).stdout.strip()
     if st:
         print('refusing: /repo working tree is not clean'); sys.exit(2)
-    a = subprocess.run(['git', '-C', '/repo', 'apply', patch], capture_output=True, text=True)
+    a = subprocess.run(['git', '-C', R, 'apply', patch], capture_output=True, text=True)
     if a.returncode != 0:
         rows.append((sid, 'patch does not apply', '')); continue
     try:
         p = subprocess.run([os.path.join(V, 'check'), prop, '--tier', 'quick'], capture_output=True, text=True, cwd=V, timeout=1800)
     finally:
-        subprocess.run(['git', '-C', '/repo', 'checkout', '--', '.'])
+        subprocess.run(['git', '-C', R, 'checkout', '--', '.'])
     viol = [l for l in p.stdout.split('\n') if l.startswith('VIOLATION')]
     obl = sorted(set(re.findall(r'obligation=(\S+)', '\n'.join(viol))))
     outcome = 'detected' if p.returncode == 1 and viol else ('undecided (exit 2)' if p.returncode == 2 else 'missed (exit 0)')
